@@ -10,49 +10,182 @@ from . import ibmrun, c05
 from .common import Driver, F, B, unF, close, RngRecorder
 from .stubs import real_state, LinEnv, Obj
 
-RULE = ("sand eel: stages across 0..2.2 incl. just below/at 1 and 2, hatch rates 0..1 (0 = to be drawn), bottom and "
-        "ambient temperatures -2..25, dt 1 s..2 d, single updates and histories up to completion; hatch_time on a "
-        "rate x temperature grid incl. outside [2,10]; shrimp and larvae/saithe through the shared runners. "
-        "Non-trivial: >=1 particle.")
-ASSUMPTIONS = ["exp/pow/log results compared with relative tolerance 1e-9"]
+RULE = ("sand eel: stages across 0..2.2 incl. just below/at 1 and 2, hatch rates 0..1 incl. exactly 0 (= drawn by the "
+        "first update, tails injected), bottom and ambient temperatures -2..25, dt 1 s..2 d (int or float in the "
+        "configuration), initial `active` flag consistent with the stage or arbitrary (LADiM's default is 1); half of "
+        "the cases heterogeneous: per-particle positions on a 3-level 7x10 bottom-temperature field that varies "
+        "differently along X and Y, sub-grid offsets i0 in {0,1,3} / j0 in {0,1,2}, positions next to cell borders, "
+        "ambient temperature varying with the particle depth; single updates and histories (random start stages, "
+        "hatch rates incl. 0, dt 1 h..2 d, temperatures changing between steps) run up to completion; hatch_time on a "
+        "rate x temperature grid incl. outside [2,10] and 2-D arguments; shrimp through the shared runner plus start "
+        "stages above 6 (the repository's example releases stage 7) and histories up to stage 6 with the temperature "
+        "changing between steps; larvae/saithe through the shared runner plus dt 1 s / 1 d / 2 d and overridden "
+        "init_larvae_weight / egg_diam (larvae). Non-trivial: >=1 particle.")
+ASSUMPTIONS = ["exp/pow/log results compared with relative tolerance 1e-9 against the model; implementation-side "
+               "oracles that redo the published formula with numpy's own exp/log/power use 1e-12 (a few ulp between "
+               "the scalar and the vectorised libm routines)",
+               "larvae/saithe depth after the update is compared with 2e-6 relative to the distance travelled "
+               "(the velocity array of the code is float32)"]
 SITE = "ladim_plugins/sandeel/ibm.py"
+
+FIELD_SHAPE = (3, 7, 10)        # levels, ny, nx of the heterogeneous bottom-temperature field (nx != ny)
+
+
+# ============================================================================================ sand eel
+def sandeel_field(case):
+    """bottom-temperature field of a case: level 0 is the bottom level (ROMS order); the other levels differ"""
+    h = case.get("hetero")
+    if not h:
+        return np.full((1, 8, 8), case["bt"])
+    nl, ny, nx = FIELD_SHAPE
+    jj, ii = np.meshgrid(np.arange(ny), np.arange(nx), indexing="ij")
+    f0 = h["a"] + h["bx"] * ii + h["cy"] * jj
+    return np.stack([f0 + 9.5 * k + 0.25 * k * ii for k in range(nl)])
+
+
+def sandeel_temps(case):
+    """(bottom temperature, ambient temperature) of every particle, from the construction of the case (the cell a
+    particle was placed in), not from the implementation's index arithmetic"""
+    n = case["n"]
+    h = case.get("hetero")
+    if not h:
+        return np.full(n, float(case["bt"])), np.full(n, float(case["temp"]))
+    bt = np.array([h["a"] + h["bx"] * int(i) + h["cy"] * int(j) for i, j in zip(h["ci"], h["cj"])], dtype=float)
+    return bt, case["temp"] + h["tz"] * h["Z"]
 
 
 def sandeel_dev_case(rng, n=None):
     n = rng.randrange(1, 9) if n is None else n
     dt = rng.choice([1.0, 600.0, 3600.0, 86400.0, 172800.0])
     stage = np.array([rng.choice([0.0, 0.5, 0.999999, 1.0, 1.0 - 1e-12, 1.5, 1.9999, 2.0, 2.2, rng.uniform(0, 2.2)]) for _ in range(n)])
-    hatch = np.array([rng.choice([rng.uniform(0.001, 1.0), 0.5, 1.0, 1e-6]) for _ in range(n)])
+    hatch = np.array([rng.choice([rng.uniform(0.001, 1.0), 0.5, 1.0, 1e-6, 0.0]) for _ in range(n)])
     active = np.array([(1 <= s < 2) for s in stage])
     bt = rng.choice([-2.0, 2.0, 3.0, 4.0, 5.5, 7.0, 9.0, 10.0, 25.0])
     temp = rng.choice([-1.0, 0.0, 6.0, 12.0, 25.0])
+    case = dict(dt=dt, stage=stage, hatch=hatch, active=active, bt=bt, temp=temp, n=n)
+    if rng.random() < 0.5:
+        # every particle in its own cell of a field that varies differently along X and Y, on a sub-grid with
+        # offsets; `ci`, `cj` are the cell the particle is placed in, the position is up to half a cell away from
+        # the cell centre (never exactly on a border, where "nearest cell" is not defined)
+        nl, ny, nx = FIELD_SHAPE
+        i0 = rng.choice([0, 1, 3]); j0 = rng.choice([0, 1, 2])
+        ci = np.array([rng.randrange(nx) for _ in range(n)]); cj = np.array([rng.randrange(ny) for _ in range(n)])
+        off = lambda: rng.choice([0.0, 0.3, -0.3, 0.5 - 1e-9, -0.5 + 1e-9, rng.uniform(-0.49, 0.49)])
+        X = np.array([i0 + ci[k] + off() for k in range(n)]); Y = np.array([j0 + cj[k] + off() for k in range(n)])
+        Z = np.array([rng.choice([0.0, 5.0, 10.0, 37.5, rng.uniform(0, 80)]) for _ in range(n)])
+        case["hetero"] = dict(i0=i0, j0=j0, ci=ci, cj=cj, X=X, Y=Y, Z=Z, a=rng.choice([-2.0, 1.0, 4.0, 8.0, 20.0]),
+                              bx=rng.choice([0.37, -0.5, 1.3]), cy=rng.choice([0.21, -0.8, 2.0]),
+                              tz=rng.choice([0.05, -0.02, 0.3]))
+    if rng.random() < 0.4:
+        # the flag is whatever the release file / LADiM's default (1) left there
+        case["active"] = np.array([rng.random() < 0.5 for _ in range(n)])
+        case["free_active"] = True
+    case["int_dt"] = rng.random() < 0.3
     if rng.random() < 0.3:
         # exact-threshold eggs: stage + dt/(days*86400) == 1.0 exactly (activation uses `>= 1`)
         M = __import__("importlib").import_module("ladim_plugins.sandeel.ibm")
-        days = M.hatch_time(hatch, np.full(n, bt))
+        btp, _ = sandeel_temps(case)
+        days = M.hatch_time(hatch, btp)
         for i in range(n):
+            if hatch[i] == 0:
+                continue                      # the rate is not known before the update
             inc = dt / (days[i] * 60 * 60 * 24)
             for cand in (1.0 - inc, np.nextafter(1.0 - inc, 0.0), np.nextafter(1.0 - inc, 2.0)):
                 if 0 <= cand < 1 and cand + inc == 1.0:
-                    stage[i] = cand; active[i] = False
+                    stage[i] = cand
+                    if not case.get("free_active"):
+                        case["active"][i] = False
                     break
-    return dict(dt=dt, stage=stage, hatch=hatch, active=active, bt=bt, temp=temp, n=n)
+    if rng.random() < 0.2:
+        # exact-threshold larvae: the growth step lands on stage 2.0 exactly (deactivation uses `< 2`); found by
+        # bisection on the start stage with the implementation's own growth function, then among the neighbouring doubles
+        M = __import__("importlib").import_module("ladim_plugins.sandeel.ibm")
+        _, tmp = sandeel_temps(case)
+        for i in range(n):
+            if 1 <= stage[i] < 2:
+                cand = larva_landing_on_2(M, float(tmp[i]), dt)
+                if cand is not None:
+                    stage[i] = cand
+                    case["exact_2"] = True
+    return case
 
 
-def sandeel_dev_run(case, seed, ibm=None, state=None):
+def larva_landing_on_2(M, temp, dt):
+    def f(s):
+        st = np.array([s]); act = np.array([True])
+        M.larval_development(np.array([temp]), st, act, dt)
+        return st[0]
+    lo, hi = 1.0, float(np.nextafter(2.0, 0.0))
+    if f(lo) >= 2 or f(hi) < 2:
+        return None
+    for _ in range(60):
+        mid = 0.5 * (lo + hi)
+        if f(mid) >= 2:
+            hi = mid
+        else:
+            lo = mid
+    c = lo
+    for _ in range(6):
+        c = float(np.nextafter(c, 0.0))
+    for _ in range(16):
+        if f(c) == 2.0:
+            return c
+        c = float(np.nextafter(c, 3.0))
+    return None
+
+
+def sandeel_dev_run(case, seed, ibm=None, state=None, inject=None):
     n = case["n"]
     M = ibmrun.mod("sandeel")
-    ibm = ibm or M.IBM(dict(dt=case["dt"], ibm=dict(vertical_mixing=0.0, max_depth=1000.0)))
-    env = LinEnv(h0=100.0, t0=case["temp"], tz=0.0)
-    g = env.grid(); g.grid = Obj(i0=0, j0=0)
-    f = env.forcing(); f.forcing = Obj(temp=np.full((1, 8, 8), case["bt"]))
-    state = state or real_state(dt=case["dt"], X=np.full(n, 3.0), Y=np.full(n, 3.0), Z=np.full(n, 10.0),
-                                stage=case["stage"].copy(), hatch_rate=case["hatch"].copy(), active=case["active"].copy())
+    ibm = ibm or M.IBM(dict(dt=ibmrun.cfg_dt(case), ibm=dict(vertical_mixing=0.0, max_depth=1000.0)))
+    h = case.get("hetero")
+    env = LinEnv(h0=100.0, t0=case["temp"], tz=h["tz"] if h else 0.0)
+    g = env.grid(); g.grid = Obj(i0=h["i0"] if h else 0, j0=h["j0"] if h else 0)
+    f = env.forcing(); f.forcing = Obj(temp=sandeel_field(case))
+    if state is None:
+        X, Y, Z = (h["X"].copy(), h["Y"].copy(), h["Z"].copy()) if h else (np.full(n, 3.0), np.full(n, 3.0), np.full(n, 10.0))
+        state = real_state(dt=case["dt"], X=X, Y=Y, Z=Z,
+                           stage=case["stage"].copy(), hatch_rate=case["hatch"].copy(), active=case["active"].copy())
     before = dict(stage=state["stage"].copy(), active=state.active.copy(), hatch=state["hatch_rate"].copy())
-    with RngRecorder(seed):
+    with RngRecorder(seed, inject):
         ibm.update_ibm(g, state, f)
     after = dict(stage=state["stage"].copy(), active=state.active.copy(), hatch=state["hatch_rate"].copy())
     return before, after, ibm, state
+
+
+def sandeel_larval_step(s, temp, dt):
+    """one larval growth step as published (Christensen et al. 2008, doi:10.1139/F08-073, as quoted in the code's
+    docstring): length L = L0 + (stage - 1)(Lm - L0), dL/dt = exp(l0 + l1 T) (L/L0)^gamma (1 - L/Linf) mm/day"""
+    Lm, L0, Linf = 40.0, 7.73, 218.0
+    L = L0 + (s - 1) * (Lm - L0)
+    lamb = np.exp(-1.725 + 0.136 * temp)
+    Ln = L + lamb * np.power(L / L0, 0.316) * (1 - L / Linf) * dt / 86400
+    return float(1 + (Ln - L0) / (Lm - L0))
+
+
+def sandeel_summary(case):
+    out = {}
+    for k, v in case.items():
+        if isinstance(v, dict):
+            v = {a: (b.tolist() if isinstance(b, np.ndarray) else b) for a, b in v.items()}
+        out[k] = v.tolist() if isinstance(v, np.ndarray) else v
+    return out
+
+
+def quad3(d0, d1, d2, r):
+    """the parabola through (0, d0), (0.5, d1), (1, d2)"""
+    return d0 * (r - 0.5) * (r - 1) / 0.5 + d1 * r * (r - 1) / (-0.25) + d2 * r * (r - 0.5) / 0.5
+
+
+def hatch_time_published(r, t):
+    """Smigielski et al. (1984) table as the docstring of `hatch_time` reads it: second order in the rate direction,
+    linear in temperature, temperature limited to the tabulated range"""
+    days = [[61, 51, 39, 25], [82, 67, 48, 30], [135, 116, 82, 55]]
+    T = [2.0, 4.0, 7.0, 10.0]
+    t = min(10.0, max(2.0, t))
+    q = [quad3(days[0][k], days[1][k], days[2][k], r) for k in range(4)]
+    k = 0 if t < 4 else (1 if t < 7 else 2)
+    return q[k] + (q[k + 1] - q[k]) * (t - T[k]) / (T[k + 1] - T[k])
 
 
 def sandeel(ctx, drv):
@@ -61,12 +194,21 @@ def sandeel(ctx, drv):
 
     def check_step(case, before, after, tag):
         n = case["n"]
-        days = M.hatch_time(after["hatch"], np.full(n, case["bt"])) if n else np.zeros(0)
+        btp, tmp = sandeel_temps(case)
+        days = M.hatch_time(after["hatch"], btp) if n else np.zeros(0)
+        summ = sandeel_summary(case)
         for i in range(n):
-            cs = dict(case={k: (v.tolist() if isinstance(v, np.ndarray) else v) for k, v in case.items()}, particle=i,
+            cs = dict(case=summ, particle=i, bottom_temp=float(btp[i]), ambient_temp=float(tmp[i]),
                       before={k: v[i] for k, v in before.items()}, after={k: v[i] for k, v in after.items()})
             s0, s1 = before["stage"][i], after["stage"][i]
             ctx.oracle(s1 >= s0, "C09.sandeel.stage_decreased", SITE, "stage %r -> %r" % (s0, s1), cs)
+            # the hatch rate is the particle's own constant: drawn once (0 = not drawn yet), then kept
+            h0, h1 = before["hatch"][i], after["hatch"][i]
+            if h0 != 0:
+                ctx.oracle(h1 == h0, "C09.sandeel.hatch_rate_changed", SITE, "hatch rate %r -> %r" % (h0, h1), cs)
+            else:
+                ctx.branch("sandeel.hatch_rate_drawn")
+                ctx.oracle(0 <= h1 <= 1, "C09.sandeel.hatch_rate_outside_0_1", SITE, "hatch rate drawn: %r" % h1, cs)
             if s0 < 1:
                 inc = case["dt"] / (days[i] * 60 * 60 * 24)
                 s_egg = s0 + inc
@@ -76,31 +218,62 @@ def sandeel(ctx, drv):
                                "stage %r + dt/(days*86400)=%r expected %r got %r" % (s0, inc, s_egg, s1), cs)
                     ctx.oracle(bool(after["active"][i]) == (s1 >= 1), "C09.sandeel.egg_activation", SITE,
                                "stage' %r active' %r" % (s1, after["active"][i]), cs)
+                    if before["active"][i]:
+                        ctx.branch("sandeel.egg_flagged_active_before")
             if 1 <= s1 and 1 <= (s0 if s0 >= 1 else s0 + case["dt"] / (days[i] * 86400)) < 2:
                 ctx.oracle(bool(after["active"][i]) == (s1 < 2), "C09.sandeel.larva_activity", SITE,
                            "stage' %r active' %r" % (s1, after["active"][i]), cs)
+            s_lar = s0 if s0 >= 1 else s0 + case["dt"] / (days[i] * 60 * 60 * 24)
+            if 1 <= s_lar < 2:
+                # larval stage advances by the published growth rate (at the ambient temperature) times dt; an egg
+                # that hatches in this update is a larva for the rest of it.  1e-12: numpy exp/power, scalar vs array
+                want = sandeel_larval_step(s_lar, tmp[i], case["dt"])
+                ctx.oracle(close(s1, want, 1e-12, 0.0), "C09.sandeel.larva_rate", SITE,
+                           "larva at stage %r, %r degC, dt %r: stage' %r, published growth gives %r" % (s_lar, tmp[i], case["dt"], s1, want), cs)
             if s0 >= 2:
                 ctx.oracle(s1 == s0 and bool(after["active"][i]) == bool(before["active"][i]), "C09.sandeel.metamorphosed_changed",
                            SITE, "stage %r -> %r" % (s0, s1), cs)
             if drv.available:
-                j = drv.ask("dev.sandeel", F(case["bt"]), F(case["temp"]), F(after["hatch"][i]), F(case["dt"]), F(s0),
+                j = drv.ask("dev.sandeel", F(btp[i]), F(tmp[i]), F(after["hatch"][i]), F(case["dt"]), F(s0),
                             B(before["active"][i]))
-                pend.append((j, s1, bool(after["active"][i]), cs))
+                pend.append((j, s1, bool(after["active"][i]), cs,
+                             (float(s0 + case["dt"] / (days[i] * 60 * 60 * 24)), float(tmp[i]), case["dt"]) if s0 < 1 else None))
+        if case.get("hetero"):
+            ctx.branch("sandeel.heterogeneous_temperatures")
+            if case["hetero"]["i0"] or case["hetero"]["j0"]:
+                ctx.branch("sandeel.subgrid_offset")
+        if case.get("free_active"):
+            ctx.branch("sandeel.arbitrary_initial_flag")
+        if case.get("int_dt"):
+            ctx.branch("sandeel.integer_dt")
+        k2 = int(np.sum((before["stage"] < 2) & (after["stage"] == 2.0)))
+        if k2:
+            ctx.branch("sandeel.larva_lands_on_stage_2_exactly", k2)
 
-    for c in range(ctx.n(150, 3000)):
+    for c in range(ctx.n(300, 4000)):
         case = sandeel_dev_case(ctx.rng)
-        before, after, _, _ = sandeel_dev_run(case, ctx.sub_seed())
-        ctx.case(key=("sandeel", repr({k: (v.tolist() if isinstance(v, np.ndarray) else v) for k, v in case.items()})),
+        inj = ibmrun.tail_injector(ctx.rng) if ctx.rng.random() < 0.5 else None
+        before, after, _, _ = sandeel_dev_run(case, ctx.sub_seed(), inject=inj)
+        ctx.case(key=("sandeel", repr(sandeel_summary(case))),
                  nontrivial=True, sample=dict(dt=case["dt"], bt=case["bt"], n=case["n"]) if c == 0 else None)
         ctx.branch("sandeel.single")
         check_step(case, before, after, "single")
     # histories up to completion
-    for h in range(ctx.n(6, 60)):
+    for h in range(ctx.n(8, 80)):
         case = sandeel_dev_case(ctx.rng, n=4)
-        case["stage"] = np.array([0.0, 0.3, 0.9, 1.2]); case["active"] = np.array([False, False, False, True])
-        case["dt"] = ctx.rng.choice([86400.0, 43200.0, 172800.0]); case["bt"] = ctx.rng.choice([4.0, 7.0, 9.5]); case["temp"] = ctx.rng.choice([8.0, 12.0])
+        if h % 2 == 0:
+            case["stage"] = np.array([0.0, 0.3, 0.9, 1.2])
+        else:
+            case["stage"] = np.array([ctx.rng.choice([0.0, 0.999, 1.0, 1.7, ctx.rng.uniform(0, 1.5)]) for _ in range(4)])
+            ctx.branch("sandeel.history_random_start")
+        if not case.get("free_active"):
+            case["active"] = (case["stage"] >= 1) & (case["stage"] < 2)
+        case["dt"] = ctx.rng.choice([86400.0, 43200.0, 172800.0, 172800.0, 3600.0])
+        case["bt"] = ctx.rng.choice([4.0, 7.0, 9.5, -2.0, 25.0]); case["temp"] = ctx.rng.choice([8.0, 12.0, 3.0, 20.0])
+        if case.get("hetero"):
+            case["hetero"] = dict(case["hetero"], a=case["bt"])
         ibm = None; state = None
-        for s in range(ctx.n(120, 400)):
+        for s in range(ctx.n(400, 3000)):
             before, after, ibm, state = sandeel_dev_run(case, ctx.sub_seed(), ibm, state)
             ctx.case(key=("sandeel_hist", h, s), nontrivial=True)
             ctx.branch("sandeel.history_step")
@@ -109,6 +282,12 @@ def sandeel(ctx, drv):
             if np.all(after["stage"] >= 2):
                 ctx.branch("sandeel.history_completed")
                 break
+            if ctx.rng.random() < 0.1:
+                # the water changes between two updates
+                case["bt"] = ctx.rng.choice([4.0, 7.0, 9.5, -2.0, 1.0, 12.0]); case["temp"] = ctx.rng.choice([8.0, 12.0, 3.0, 20.0, 0.0])
+                if case.get("hetero"):
+                    case["hetero"] = dict(case["hetero"], a=case["bt"])
+                ctx.branch("sandeel.history_temperature_changed")
     # hatch_time against the spline and the table
     tab = {(0.0, 2.0): 61, (0.0, 4.0): 51, (0.0, 7.0): 39, (0.0, 10.0): 25, (0.5, 2.0): 82, (0.5, 4.0): 67, (0.5, 7.0): 48,
            (0.5, 10.0): 30, (1.0, 2.0): 135, (1.0, 4.0): 116, (1.0, 7.0): 82, (1.0, 10.0): 55}
@@ -122,12 +301,45 @@ def sandeel(ctx, drv):
         got = float(M.hatch_time(np.array([r]), np.array([t]))[0])
         ctx.case(key=("hatch", r, t), nontrivial=True); ctx.branch("sandeel.hatch_time")
         ctx.oracle(got > 0, "C09.sandeel.hatch_time_nonpositive", SITE, "hatch_time(%r,%r)=%r" % (r, t, got), dict(rate=r, temp=t))
+        # between the table entries: second order in the rate, linear in temperature (1e-9: the B-spline evaluation of
+        # FITPACK against the closed form, same tolerance as for the table entries themselves)
+        want = hatch_time_published(r, t)
+        ctx.oracle(close(got, want, 1e-9), "C09.sandeel.hatch_interpolation", SITE,
+                   "hatch_time(%r,%r)=%r, table interpolation %r" % (r, t, got, want), dict(rate=r, temp=t))
+        if t < 2 or t > 10:
+            # outside the tabulated range the nearest tabulated temperature applies (same evaluation, hence exact)
+            edge = 2.0 if t < 2 else 10.0
+            ge = float(M.hatch_time(np.array([r]), np.array([edge]))[0])
+            ctx.branch("sandeel.hatch_time_outside_table")
+            ctx.oracle(got == ge, "C09.sandeel.hatch_outside_table", SITE,
+                       "hatch_time(%r,%r)=%r but hatch_time(%r,%r)=%r" % (r, t, got, r, edge, ge), dict(rate=r, temp=t))
         if drv.available:
             hp.append((drv.ask("dev.hatchtime", F(r), F(t)), got, dict(rate=r, temp=t)))
+    for _ in range(ctx.n(10, 100)):
+        # array arguments of any shape: element by element the same as one at a time
+        shp = ctx.rng.choice([(2, 3), (3, 1), (1, 4), (2, 2, 2), (0,), (5,)])
+        k = int(np.prod(shp))
+        R = np.array([ctx.rng.choice([0.0, 1.0, ctx.rng.random()]) for _ in range(k)]).reshape(shp)
+        T = np.array([ctx.rng.choice([-3.0, 2.0, 30.0, ctx.rng.uniform(0, 12)]) for _ in range(k)]).reshape(shp)
+        got = M.hatch_time(R, T)
+        ctx.case(key=("hatch_nd", repr(R.tolist()), repr(T.tolist())), nontrivial=k > 0); ctx.branch("sandeel.hatch_time_array_argument")
+        one = np.array([float(M.hatch_time(np.array([r]), np.array([t]))[0]) for r, t in zip(R.ravel(), T.ravel())]).reshape(shp)
+        ctx.oracle(np.shape(got) == shp and bool(np.all(np.asarray(got) == one)), "C09.sandeel.hatch_time_array", SITE,
+                   "hatch_time on arrays of shape %r differs from the element-wise values" % (shp,),
+                   dict(rate=R.tolist(), temp=T.tolist(), got=np.asarray(got).tolist(), elementwise=one.tolist()))
     if drv.available:
         rep = drv.run()
-        for j, s1, a1, cs in pend:
+        for j, s1, a1, cs, egg in pend:
             st, t = rep[j]
+            ms = unF(t[0])
+            if egg is not None and abs(egg[0] - 1) <= 1e-9 and not close(s1, ms, 1e-9, 1e-12) and (
+                    close(ms, egg[0], 1e-9, 1e-12) or close(ms, sandeel_larval_step(max(egg[0], 1.0), egg[1], egg[2]), 1e-9, 1e-12)):
+                # the model's hatch time agrees with the spline to 1e-9 only: an egg that lands on stage 1 within that
+                # tolerance may be on the other side of the threshold in the model (hatched / not hatched in this
+                # update).  These particles are judged exactly by the implementation-side predicates egg_rate,
+                # egg_activation, larva_rate and larva_activity above.
+                ctx.branch("sandeel.model_on_other_side_of_stage_1")
+                continue
             ctx.eq_close("sandeel.stage", s1, unF(t[0]), cs, rel=1e-9, abs_=1e-12)
             # the activity flag may legitimately differ when the stage is within tolerance of a threshold
             ms = unF(t[0])
@@ -137,10 +349,80 @@ def sandeel(ctx, drv):
             ctx.eq_close("sandeel.hatch_time", got, unF(rep[j][1][0]), cs, rel=1e-9)
 
 
+# ============================================================================ shrimp, larvae, saithe
+TAB = [6.371, 7.480, 9.144, 11.433, 12.088, 13.175]
+LEN_PEND = []        # (stage', length') of the implementation, for the model's length table
+
+
+def shrimp_table_length(s):
+    """length at a (fractional) stage: the tabulated lengths of stages 1..6 (Ouellet and Allard 2006), linear in between"""
+    k = min(int(math.floor(s)), 5)
+    return TAB[k - 1] + (TAB[k] - TAB[k - 1]) * (s - k)
+
+
+def folkvord_weight(temp, w0, dt):
+    """weight after `dt` seconds of growth at the published rate (Folkvord 2005, doi:10.1139/f05-008), starting at w0"""
+    w = np.log(w0)
+    gr_percent = 1.08 + temp * (1.79 + w * (-0.074 + w * (-0.0965 + w * 0.0112)))
+    gr = np.log(1 + 0.01 * gr_percent)
+    return float(w0 + (np.exp(gr * dt / 86400) - 1) * w0)
+
+
+def folkvord_length(weight):
+    """larval length [mm] from dry weight [mg], equation (6) of Folkvord (2005)"""
+    w = np.log(weight)
+    return np.exp(2.296 + w * (0.277 - w * 0.005128))
+
+
+def expected_depths(name, case, res):
+    """Where the vertical behaviour puts every particle: eggs (age <= hatch day before ageing) move with their
+    buoyancy velocity, larvae swim with `swim_speed` body lengths per second towards their preferred light; plus
+    the recorded mixing draw; then the module's depth limits.  Returns (z_if_egg, z_if_larva, scale) or None."""
+    n = res["n"]
+    if n == 0:
+        return None
+    D = 1e-4 if name == "saithe" else case["D"]
+    xi = res.get("xi")
+    if D and xi is None:
+        return None
+    from ladim_plugins.utils import light, density, viscosity
+    L = ibmrun.mod("larvae")
+    b, a, sp = res["before"], res["after"], case["sp"]
+    dt = float(case["dt"])
+    T, S = a["temp"], a["salt"]
+    w_egg = L.sinkvel_egg(mu_w=viscosity(T, S), dens_w=density(T, S), dens_egg=density(T, case["buoy"]),
+                          diam_egg=sp["egg_diam"])
+    lon, lat = case["env"].lonlat(case["x"], case["y"])
+    k = 0.2 if name == "saithe" else case["k"]
+    Eb = light(case["ts"], lon, lat, depth=b["z"], extinction_coef=k)
+    with np.errstate(all="ignore"):
+        w_lar = sp["swim_speed"] * 0.001 * folkvord_length(np.maximum(a["weight"], 1e-300)) * np.sign(Eb - sp["light"])
+    noise = (np.asarray(xi, dtype=float) * np.sqrt(2 * D / dt)) if D else np.zeros(n)
+    lo, hi = float(sp["min_depth"]), float(sp["max_depth"])
+    ze = b["z"] + (w_egg + noise) * dt
+    zl = b["z"] + (w_lar + noise) * dt
+    scale = 1 + np.abs(b["z"]) + (np.maximum(np.abs(w_egg), np.abs(w_lar)) + np.abs(noise)) * dt
+    ze = np.maximum(ze, 0) if name == "saithe" else np.clip(ze, lo, hi)
+    zl = np.clip(zl, lo, hi)
+    return ze, zl, scale
+
+
 def oracle(ctx, name, case, res):
     b, a, n = res["before"], res["after"], res["n"]
     site = "ladim_plugins/%s/ibm.py" % name
-    TAB = [6.371, 7.480, 9.144, 11.433, 12.088, 13.175]
+    if name == "shrimp":
+        if n and np.any(res["meta"]["stage0"] > 6):
+            ctx.branch("shrimp.start_stage_above_6")
+    else:
+        if case["dt"] >= 86400:
+            ctx.branch("%s.dt_of_days" % name)
+        if case["dt"] == 1.0:
+            ctx.branch("%s.dt_one_second" % name)
+        if "init_larvae_weight" in case["over"]:
+            ctx.branch("larvae.init_larvae_weight_overridden")
+        if "egg_diam" in case["over"]:
+            ctx.branch("larvae.egg_diam_overridden")
+        zexp = expected_depths(name, case, res)
     for i in range(n):
         cs = dict(module=name, case=ibmrun.case_summary(case), particle=i,
                   before={k: v[i] for k, v in b.items()}, after={k: v[i] for k, v in a.items()})
@@ -153,12 +435,23 @@ def oracle(ctx, name, case, res):
             want = s0 + (case["dt"] / 86400) * t / (34.98593627 + 4.12176015 * t)
             if 1 <= want <= 6 and s0 >= 1:
                 ctx.oracle(close(s1, want, 1e-12), "C09.shrimp.stage_rate", site, "stage %r -> %r expected %r" % (s0, s1, want), cs)
+            if want >= 6 and s0 >= 1:
+                # development is complete at stage 6: the stage stays there (same arithmetic as the code, hence exact)
+                ctx.branch("shrimp.reaches_or_is_past_stage_6")
+                ctx.oracle(s1 == 6, "C09.shrimp.stage_cap", site, "stage %r + increment = %r >= 6 but stage' %r" % (s0, want, s1), cs)
             ctx.oracle(bool(a["active"][i]) == (s1 < 6), "C09.shrimp.active_iff_lt_6", site, "stage' %r active' %r" % (s1, a["active"][i]), cs)
             k = int(math.floor(s1))
             if s1 == k:
                 ctx.oracle(close(a["length"][i], TAB[k - 1], 1e-12), "C09.shrimp.length_table", site,
                            "stage %r length %r table %r" % (s1, a["length"][i], TAB[k - 1]), cs)
             ctx.oracle(TAB[0] <= a["length"][i] <= TAB[5], "C09.shrimp.length_range", site, "length %r" % a["length"][i], cs)
+            if 1 <= s1 <= 6:
+                # the tabulated length for the (fractional) stage; 1e-12: order of the operations of the linear
+                # interpolation is not part of the statement
+                wl = shrimp_table_length(s1)
+                ctx.oracle(close(a["length"][i], wl, 1e-12, 0.0), "C09.shrimp.length_for_stage", site,
+                           "stage' %r length' %r, table (linear between stages) %r" % (s1, a["length"][i], wl), cs)
+                LEN_PEND.append((float(s1), float(a["length"][i]), cs))
         else:
             hd = float(case["sp"]["hatch_day"]); init = float(case["sp"]["init_larvae_weight"])
             is_egg = b["age"][i] <= hd
@@ -171,8 +464,94 @@ def oracle(ctx, name, case, res):
                 if True:
                     ctx.oracle(a["weight"][i] > max(b["weight"][i], init) * (1 - 1e-15), "C09.%s.growth_negative" % name, site,
                                "weight %r -> %r at temp %r" % (b["weight"][i], a["weight"][i], a["temp"][i]), cs)
+                # growth starts from the initial larval weight and follows the published rate over dt (1e-12: numpy
+                # exp/log, scalar vs array, and the order of `GR * dt / 86400`)
+                w0 = max(b["weight"][i], init)
+                ww = folkvord_weight(a["temp"][i], w0, float(case["dt"]))
+                ctx.oracle(close(a["weight"][i], ww, 1e-12, 0.0), "C09.%s.larva_growth" % name, site,
+                           "larva weight %r (floor %r) at %r degC over %r s -> %r, published growth gives %r"
+                           % (b["weight"][i], init, a["temp"][i], case["dt"], a["weight"][i], ww), cs)
             if a["temp"][i] >= 0:
                 ctx.oracle(a["age"][i] >= b["age"][i], "C09.%s.age_decreased" % name, site, "age", cs)
+                # the degree-day clock advances by temperature x time step (in days); same arithmetic as the code
+                wa = b["age"][i] + a["temp"][i] * case["sdt"] / 86400
+                ctx.oracle(a["age"][i] == wa, "C09.%s.age_rate" % name, site,
+                           "age %r at %r degC over %r s -> %r expected %r" % (b["age"][i], a["temp"][i], case["sdt"], a["age"][i], wa), cs)
+            if zexp is not None:
+                # buoyancy-driven up to the hatch threshold, swimming after it.  Tolerance 2e-6 of the distance
+                # scale: the code keeps the velocity in a float32 array
+                ze, zl, scale = zexp
+                tol = 2e-6 * scale[i]
+                if is_egg:
+                    ctx.oracle(abs(a["z"][i] - ze[i]) <= tol, "C09.%s.egg_not_buoyancy_driven" % name, site,
+                               "egg (age %r <= %r): Z %r -> %r, buoyancy gives %r (swimming would give %r)"
+                               % (b["age"][i], hd, b["z"][i], a["z"][i], ze[i], zl[i]), cs)
+                else:
+                    ctx.oracle(abs(a["z"][i] - zl[i]) <= tol, "C09.%s.larva_not_swimming" % name, site,
+                               "larva (age %r > %r): Z %r -> %r, swimming gives %r (buoyancy would give %r)"
+                               % (b["age"][i], hd, b["z"][i], a["z"][i], zl[i], ze[i]), cs)
+                if abs(ze[i] - zl[i]) > 2 * tol:
+                    ctx.branch("%s.behaviours_distinguishable" % name)
+
+
+def shrimp_case9(rng, n=None):
+    """the shared shrimp generator plus start stages above 6 (ladim_plugins/shrimp/particles.rls releases stage 7)"""
+    case = ibmrun.shrimp_case(rng, n)
+    st = case["stage"].copy()
+    for i in range(len(st)):
+        if rng.random() < 0.12:
+            st[i] = rng.choice([6.5, 7.0])
+    case["stage"] = st
+    return case
+
+
+def larvae_gen9(module):
+    """the shared larvae / saithe generator plus time steps of 1 s, 1 d, 2 d and (larvae) an overridden initial
+    larval weight / egg diameter"""
+    def gen(rng, n=None):
+        case = ibmrun.larvae_case(rng, n, module)
+        if rng.random() < 0.3:
+            case["dt"] = case["sdt"] = rng.choice([1.0, 86400.0, 172800.0])
+        if module == "larvae" and rng.random() < 0.4:
+            over = dict(case["over"]); sp = dict(case["sp"])
+            over["init_larvae_weight"] = sp["init_larvae_weight"] = rng.choice([0.05, 0.2, 1.0])
+            if rng.random() < 0.5:
+                over["egg_diam"] = sp["egg_diam"] = rng.choice([0.001, 0.0016])
+            case["over"] = over; case["sp"] = sp
+        return case
+    return gen
+
+
+def shrimp_histories(ctx, drv):
+    """shrimp from release to the end of development (stage 6), the water temperature changing on the way"""
+    pend = []
+    use = drv if drv.available else None
+    for h in range(ctx.n(5, 60)):
+        case = shrimp_case9(ctx.rng, n=ctx.rng.randrange(1, 6))
+        n = len(case["x"])
+        case["stage"] = np.array([ctx.rng.choice([0.0, 1.0, 1.0, ctx.rng.uniform(1, 4), 5.5]) for _ in range(n)])
+        case["dt"] = ctx.rng.choice([86400.0, 100000.0, 172800.0])
+        ibm = None; state = None
+        for s in range(200):
+            res = ibmrun.shrimp_run(case, ctx.sub_seed(), use, None, ibm=ibm, state=state)
+            ibm, state = res["ibm"], res["state"]
+            ctx.case(key=("shrimp", "long_hist", h, s, repr(ibmrun.case_summary(case))), nontrivial=True)
+            ctx.branch("shrimp.long_history_step")
+            oracle(ctx, "shrimp", case, res)
+            pend.append((case, res))
+            case = c05.refresh_case("shrimp", case, res)
+            if np.all(res["after"]["stage"] == 6):
+                ctx.branch("shrimp.long_history_completed")
+                break
+            if ctx.rng.random() < 0.25:
+                case["env"].t0 = ctx.rng.choice([-1.5, 0.0, 2.9, 4.0, 8.0, 15.0])
+                ctx.branch("shrimp.long_history_temperature_changed")
+    if use is not None:
+        replies = drv.run()
+        for case, res in pend:
+            if "finish" in res:
+                res["finish"](replies)
+            c05.compare(ctx, "shrimp", case, res, c05.KEYS["shrimp"])
 
 
 def shrimp_length(ctx, drv):
@@ -191,13 +570,31 @@ def shrimp_length(ctx, drv):
         ctx.eq_bits("shrimp.length(np.interp contract)", impl, unF(rep[j][1][0]), cs)
 
 
+def shrimp_length_of_implementation(ctx, drv):
+    """the lengths the implementation stored, against the model's table at the implementation's stage"""
+    if not drv.available or not LEN_PEND:
+        return
+    idx = [drv.ask("dev.shrimplen", F(s)) for s, _, _ in LEN_PEND]
+    rep = drv.run()
+    for j, (s, l, cs) in zip(idx, LEN_PEND):
+        st, t = rep[j]
+        if st != "ok":
+            ctx.disagreement("shrimp.length", "model has no length for stage %r: %s" % (s, t), cs)
+        else:
+            ctx.eq_bits("shrimp.length", l, unF(t[0]), cs)
+
+
 def run(ctx):
     drv = Driver()
     if getattr(ctx, "widened", False):
         drv.available = False
+    del LEN_PEND[:]
     sandeel(ctx, drv)
     shrimp_length(ctx, drv)
-    c05.run(ctx, modules=["shrimp", "larvae", "saithe"], oracle=oracle)
+    c05.run(ctx, modules=["shrimp", "larvae", "saithe"], oracle=oracle,
+            gens=dict(shrimp=shrimp_case9, larvae=larvae_gen9("larvae"), saithe=larvae_gen9("saithe")))
+    shrimp_histories(ctx, drv)
+    shrimp_length_of_implementation(ctx, drv)
 
 
 def replay(payload):
